@@ -1,20 +1,39 @@
+import Tahoe.Happiness.Flow
 /-
 Model of the success/failure decision of an immutable upload (C06).
   * `Tahoe2ServerSelector.get_shareholders` final test (immutable/upload.py):
       merged = merge_servers(preexisting, use_trackers); if servers_of_happiness(merged) < happy:
       `_failed` aborts every tracker's buckets and raises UploadUnhappinessError.
-  * `CHKUploader.set_shareholders`: servermap = preexisting ∪ {(shnum, tracker.serverid)}.
+  * `CHKUploader.set_shareholders`: buckets = union of the trackers' bucket dicts;
+      `assert len(buckets) == sum(len(tracker.buckets))` (one share number allocated on two servers
+      ends the upload with AssertionError, nothing is aborted: DESIGN 8.9);
+      servermap = preexisting ∪ {(shnum, tracker.serverid)}; `_server_trackers[shnum] = tracker`.
   * `Encoder` (immutable/encode.py): phases start / segments / hash trees / UEB / close; in each phase
     every live landlord is written to; a failing write runs `_remove_shareholder` (abort the bucket,
     delete the landlord, remove the peer from servermap[shnum] (dropping empty entries), recompute
-    happiness, raise UploadUnhappinessError when below `happy`); the phase's DeferredList uses
-    fireOnOneErrback, so the first raise ends the upload: `err` aborts every remaining landlord.
+    happiness — always, also when servermap[shnum] still names another holder —, raise
+    UploadUnhappinessError when below `happy`); the phase's DeferredList uses fireOnOneErrback, so the
+    first raise ends the upload: `err` aborts every remaining landlord.  Answers that arrive after the
+    raise still run `_remove_shareholder` (the raise is eaten): `drainClose`.
     `done` reports `landlords` as the shares placed.
-The happiness function is a parameter `hp` (its own correctness is C08).  Mathlib-free, executable.
+  * `WriteBucketProxy` (immutable/layout.py): a failing remote `write` fails the `put_*` Deferred
+    (→ `_remove_shareholder`); `close()` = final flush `write`, and only when that succeeded the remote
+    `close` (`d.addCallback(lambda _: callRemote("close"))`).  A share becomes reader-visible only when
+    the server executes `close` (storage/immutable.py BucketWriter.close; C22), `abort` deletes an
+    unfinished one and is a no-op on a closed one.
+  * `CHKUploader._encrypted_done`: UploadResults.sharemap / servermap / pushed_shares are built from
+    `encoder.get_shares_placed()` (the landlords that survived) and `_server_trackers`.
+The happiness function is a parameter `hp`; `soh` is C08's model of `servers_of_happiness`
+(`Tahoe.Happiness.serversOfHappiness`, reused, not copied), the instance the driver and the concrete
+theorems use.  Mathlib-free, executable.
 -/
 namespace Tahoe.UploadDecision
 
 abbrev Sharemap := List (Nat × List Nat)     -- shnum ↦ server ids (association list, no duplicate keys)
+
+/-- `happinessutil.servers_of_happiness` (C08's model).  The code compares the integer with
+`min_happiness`; the value is never negative (C08 `soh_is_maxMatchingSize`), so `toNat` loses nothing. -/
+def soh (m : Sharemap) : Nat := (Tahoe.Happiness.serversOfHappiness m).toNat
 
 def addPeer : Sharemap → Nat → Nat → Sharemap
   | [], sh, p => [(sh, [p])]
@@ -36,21 +55,40 @@ structure Enc where
   aborted : List Nat := []          -- shnums whose bucket writer received abort()
   closed : List Nat := []           -- shnums whose close() was acknowledged
   failedEver : List Nat := []       -- shnums for which some write/close failed
+  holes : List Nat := []            -- shnums for which a write (block, hashes, UEB, final flush) failed: bytes missing on the server
+  closeCalled : List Nat := []      -- shnums on which close_all_shareholders called close()
+  flushFailed : List Nat := []      -- shnums whose final flush inside close() failed: the remote close is never issued
   deriving Repr
+
+/-- the shares a server may have made visible to readers: `close()` was called and the final flush did
+not fail, so the remote `close` was (or may still be) issued.  Independent of the order of answers. -/
+def Enc.mayBeVisible (e : Enc) : List Nat := e.closeCalled.filter (fun sh => sh ∉ e.flushFailed)
 
 /-- merge_servers(preexisting, use_trackers) / set_shareholders -/
 def mergeTrackers (pre : Sharemap) (alloc : List (Nat × Nat)) : Sharemap :=
   alloc.foldl (fun m a => addPeer m a.1 a.2) pre
 
-/-- `_remove_shareholder`: returns the new state and whether UploadUnhappinessError is raised -/
-def removeShareholder (hp : Sharemap → Nat) (happy : Nat) (e : Enc) (sh : Nat) : Enc × Bool :=
-  let e1 : Enc :=
-    match e.landlords.lookup sh with
-    | some peer => { e with landlords := e.landlords.filter (fun l => l.1 != sh),
-                            servermap := removePeer e.servermap sh peer,
-                            aborted := e.aborted ++ [sh],
-                            failedEver := e.failedEver ++ [sh] }
-    | none => e            -- "they weren't in our list of landlords"
+/-- which remote call failed: a `write` of a put_* call (bytes missing on the server), the remote `close`
+(every byte had been acknowledged), or the final flush `write` inside `WriteBucketProxy.close()` (bytes
+missing, and the remote `close` is never issued) -/
+inductive FailKind | write | closeCall | flush
+  deriving Repr, DecidableEq
+
+/-- the state change of `_remove_shareholder` -/
+def dropShareholder (e : Enc) (sh : Nat) (k : FailKind) : Enc :=
+  match e.landlords.lookup sh with
+  | some peer => { e with landlords := e.landlords.filter (fun l => l.1 != sh),
+                          servermap := removePeer e.servermap sh peer,
+                          aborted := e.aborted ++ [sh],
+                          failedEver := e.failedEver ++ [sh],
+                          holes := if k = .closeCall then e.holes else e.holes ++ [sh],
+                          flushFailed := if k = .flush then e.flushFailed ++ [sh] else e.flushFailed }
+  | none => e            -- "they weren't in our list of landlords"
+
+/-- `_remove_shareholder`: returns the new state and whether UploadUnhappinessError is raised.
+The happiness of the *whole* remaining servermap is recomputed after every loss. -/
+def removeShareholder (hp : Sharemap → Nat) (happy : Nat) (e : Enc) (sh : Nat) (k : FailKind) : Enc × Bool :=
+  let e1 := dropShareholder e sh k
   (e1, hp e1.servermap < happy)
 
 /-- `Encoder.err`: abort every remaining landlord -/
@@ -60,15 +98,31 @@ def abortAll (e : Enc) : Enc := { e with aborted := e.aborted ++ e.landlords.map
 def writePhase (hp : Sharemap → Nat) (happy : Nat) : Enc → List Nat → Enc × Bool
   | e, [] => (e, false)
   | e, sh :: rest =>
-    let (e1, raised) := removeShareholder hp happy e sh
+    let (e1, raised) := removeShareholder hp happy e sh .write
     if raised then (abortAll e1, true) else writePhase hp happy e1 rest
 
-inductive CloseEv | ok (sh : Nat) | fail (sh : Nat)
+/-- answers to `WriteBucketProxy.close()`: remote close acknowledged / remote close failed / the final
+flush write failed -/
+inductive CloseEv | ok (sh : Nat) | fail (sh : Nat) | flushFail (sh : Nat)
   deriving Repr
 
-/-- the close phase: acknowledgements and failures arrive in the given order -/
-def closePhase (hp : Sharemap → Nat) (happy : Nat) : Enc → List CloseEv → Enc × Bool
-  | e, [] => (e, false)
+/-- answers that arrive after the UploadUnhappinessError (the DeferredList has fired, `err` has run):
+`_remove_shareholder` still runs for each failure, its raise is eaten; bookkeeping only -/
+def drainClose : Enc → List CloseEv → Enc
+  | e, [] => e
+  | e, .ok sh :: rest =>
+    if (e.landlords.lookup sh).isSome ∧ sh ∉ e.closed
+    then drainClose { e with closed := e.closed ++ [sh] } rest
+    else drainClose e rest
+  | e, .fail sh :: rest =>
+    if sh ∈ e.closed then drainClose e rest else drainClose (dropShareholder e sh .closeCall) rest
+  | e, .flushFail sh :: rest =>
+    if sh ∈ e.closed then drainClose e rest else drainClose (dropShareholder e sh .flush) rest
+
+/-- the close phase: acknowledgements and failures arrive in the given order.  Result: the state at the
+verdict and, when UploadUnhappinessError was raised, the answers not yet seen (`none`: no raise). -/
+def closePhase (hp : Sharemap → Nat) (happy : Nat) : Enc → List CloseEv → Enc × Option (List CloseEv)
+  | e, [] => (e, none)
   | e, .ok sh :: rest =>
     if (e.landlords.lookup sh).isSome ∧ sh ∉ e.closed
     then closePhase hp happy { e with closed := e.closed ++ [sh] } rest
@@ -76,8 +130,13 @@ def closePhase (hp : Sharemap → Nat) (happy : Nat) : Enc → List CloseEv → 
   | e, .fail sh :: rest =>
     if sh ∈ e.closed then closePhase hp happy e rest        -- one answer per close() call
     else
-      let (e1, raised) := removeShareholder hp happy e sh
-      if raised then (abortAll e1, true) else closePhase hp happy e1 rest
+      let (e1, raised) := removeShareholder hp happy e sh .closeCall
+      if raised then (abortAll e1, some rest) else closePhase hp happy e1 rest
+  | e, .flushFail sh :: rest =>
+    if sh ∈ e.closed then closePhase hp happy e rest
+    else
+      let (e1, raised) := removeShareholder hp happy e sh .flush
+      if raised then (abortAll e1, some rest) else closePhase hp happy e1 rest
 
 def writePhases (hp : Sharemap → Nat) (happy : Nat) : Enc → List (List Nat) → Enc × Bool
   | e, [] => (e, false)
@@ -85,28 +144,55 @@ def writePhases (hp : Sharemap → Nat) (happy : Nat) : Enc → List (List Nat) 
     let (e1, raised) := writePhase hp happy e ph
     if raised then (e1, true) else writePhases hp happy e1 rest
 
-inductive Outcome | success (placed : List Nat) (sharemap : Sharemap) | unhappy
+/-- `assertion`: `CHKUploader.set_shareholders` found one share number in two trackers' buckets -/
+inductive Outcome | success (placed : List Nat) (sharemap : Sharemap) | unhappy | assertion
   deriving Repr, DecidableEq
+
+/-- what `CHKUploader._encrypted_done` puts into UploadResults -/
+structure UploadResults where
+  sharemap : Sharemap          -- shnum ↦ servers   (DictOfSets)
+  servermap : Sharemap         -- server ↦ shnums   (DictOfSets)
+  pushed : Nat                 -- pushed_shares
+  preexisting : Nat            -- preexisting_shares = len(already_serverids)
+  deriving Repr, DecidableEq
+
+/-- the (shnum, server) pairs reported: `for shnum in e.get_shares_placed(): server = _server_trackers[shnum]`
+(a share number without tracker would be a KeyError; `placed ⊆ keys table`, so it does not happen) -/
+def reportedPairs (table : List (Nat × Nat)) (placed : List Nat) : List (Nat × Nat) :=
+  placed.filterMap (fun sh => (table.lookup sh).map (fun srv => (sh, srv)))
+
+def uploadResults (pre : Sharemap) (table : List (Nat × Nat)) (placed : List Nat) : UploadResults :=
+  let pairs := reportedPairs table placed
+  { sharemap := pairs.foldl (fun m a => addPeer m a.1 a.2) [],
+    servermap := pairs.foldl (fun m a => addPeer m a.2 a.1) [],
+    pushed := placed.length,
+    preexisting := pre.length }
 
 structure Result where
   outcome : Outcome
-  final : Enc
+  verdict : Enc                 -- the encoder's state when the outcome was decided
+  final : Enc                   -- … after the answers that were still outstanding (= verdict unless unhappy in the close phase)
+  results : Option UploadResults := none
   deriving Repr
 
-/-- the whole upload decision: selector test, then the encoder's phases, then close.
+/-- the whole upload decision: selector test, set_shareholders, then the encoder's phases, then close.
 `closeEvs` is completed so that every landlord not mentioned closes successfully (honest remainder). -/
 def upload (hp : Sharemap → Nat) (happy : Nat) (pre : Sharemap) (alloc : List (Nat × Nat))
     (phases : List (List Nat)) (closeEvs : List CloseEv) : Result :=
   let merged := mergeTrackers pre alloc
   let e0 : Enc := { landlords := alloc, servermap := merged }
-  if hp merged < happy then ⟨.unhappy, abortAll e0⟩        -- selector `_failed`
+  if hp merged < happy then ⟨.unhappy, abortAll e0, abortAll e0, none⟩        -- selector `_failed`
+  else if ¬ (alloc.map (·.1)).Nodup then ⟨.assertion, e0, e0, none⟩   -- CHKUploader.set_shareholders assert
   else
     let (e1, r1) := writePhases hp happy e0 phases
-    if r1 then ⟨.unhappy, e1⟩ else
-    let (e2, r2) := closePhase hp happy e1 closeEvs
-    if r2 then ⟨.unhappy, e2⟩ else
-    -- closes not scripted succeed
-    let e3 := { e2 with closed := e2.closed ++ (e2.landlords.map (·.1)).filter (fun s => s ∉ e2.closed) }
-    ⟨.success (e3.landlords.map (·.1)) e3.servermap, e3⟩
+    if r1 then ⟨.unhappy, e1, e1, none⟩ else
+    let e1c : Enc := { e1 with closeCalled := e1.landlords.map (·.1) }     -- close_all_shareholders
+    match closePhase hp happy e1c closeEvs with
+    | (e2, some late) => ⟨.unhappy, e2, drainClose e2 late, none⟩
+    | (e2, none) =>
+      -- closes not scripted succeed
+      let e3 := { e2 with closed := e2.closed ++ (e2.landlords.map (·.1)).filter (fun s => s ∉ e2.closed) }
+      let placed := e3.landlords.map (·.1)
+      ⟨.success placed e3.servermap, e3, e3, some (uploadResults pre alloc placed)⟩
 
 end Tahoe.UploadDecision
